@@ -313,7 +313,7 @@ func c12Oracle(ex *c12Exec, expectBubble bool) []c12Finding {
 
 // ---------------------------------------------------------------- scenario generation
 
-var c12Stores = []string{"rmap", "ctl", "nstruct", "rstruct", "nmap"}
+var c12Stores = []string{"nacc", "rmap", "ctl", "nstruct", "rstruct", "nmap"}
 
 func c12Gen(r *kit.Rng) *c12Scenario {
 	sk := store.Variant(r, c12Stores[r.Intn(len(c12Stores))])
@@ -478,7 +478,7 @@ func init() {
 			Exhaustive:   false,
 			Components: map[string]string{
 				"editor, Selection, Browser (node/*)":                        "real",
-				"stores rmap/nmap/nstruct/rstruct (nodeutil.Reflect, .Node)": "real",
+				"stores rmap/nmap/nstruct/rstruct/nacc (nodeutil.Reflect, .Node; optionally with pass-through hooks)": "real",
 				"JSON/XML readers as sources, JSONWtr/XMLWtr as targets":     "real",
 				"control store / model-backed source (mnode)":                "harness",
 				"recording fault-injecting node wrapper (simnode)":           "harness",
